@@ -679,7 +679,7 @@ func checkBoundedGrowth(p *Prog, r *Report, fns []*FuncInfo) {
 		}
 		conds := dcf.DominatingConds(pt)
 		if len(conds) == 1 {
-			ct := p.ExpandHelpers(conds[0])
+			ct := p.ExpandHelpers(p.resolveSingleDefs(df, conds[0]))
 			if ct.Op == "<" && termHasField(ct, p.Field("fecDecoder", "newestShardId")) {
 				// maxShardSets*shardSize < diff(newest*size, id*size)
 				okDel = true
@@ -723,7 +723,7 @@ func checkBoundedGrowth(p *Prog, r *Report, fns []*FuncInfo) {
 		okRoom := false
 		for _, ct := range lc.DominatingConds(pt) {
 			for _, a := range Conjuncts(ct) {
-				if a.Op == "<" && a.Args[0].Op == "len" && a.Args[1].Op == "cap" && a.Args[0].Args[0].Key() == a.Args[1].Args[0].Key() {
+				if p.roomTest(lp, a, p.Field("Listener", "chAccepts"), p.ConstInt("acceptBacklog")) {
 					okRoom = true
 				}
 			}
@@ -1155,6 +1155,15 @@ func checkModularIndices(p *Prog, r *Report) {
 				})
 			}
 		}
+		if !okI {
+			// an explicit counting loop: 0 <= k < dataShards (<= shardSize, the cache length)
+			fs := fa.AtNode(ix)
+			recvT := tVar(p.recvVar(dec))
+			kv, _ := it.Obj.(*types.Var)
+			if (fs.Holds(le(tConst(0), it)) || (it.Op == "var" && p.nonNegCounter(dec, kv))) && (fs.Holds(lt(it, p.F(recvT, "fecDecoder", "dataShards"))) || fs.Holds(lt(it, p.F(recvT, "fecDecoder", "shardSize")))) {
+				okI, why = true, "0 <= k < dataShards <= shardSize"
+			}
+		}
 		construct := "index " + exprString(ix)
 		cnt[construct]++
 		if cnt[construct] > 1 {
@@ -1183,9 +1192,9 @@ func checkModularIndices(p *Prog, r *Report) {
 	}
 	// count only incremented under count < N
 	for _, st := range p.FieldStores(p.Field("autoTune", "count")) {
-		if ids, ok := st.Node.(*ast.IncDecStmt); ok && ids.Tok == token.INC {
-			fs := p.FactsOf(st.Fn).AtNode(ids)
-			r.check(fs.Holds(lt(tFld(st.Base, p.Field("autoTune", "count")), tConst(n))), "C05.B7", st.Fn.Name, p.Pos(ids), "count++", "under count < maxAutoTuneSamples", "the sample count can exceed the ring size (sortCache[:count] would panic)")
+		if _, ok := p.incBy1(st.Node); ok {
+			fs := p.FactsOf(st.Fn).AtNode(st.Node)
+			r.check(fs.Holds(lt(tFld(st.Base, p.Field("autoTune", "count")), tConst(n))), "C05.B7", st.Fn.Name, p.Pos(st.Node), "count++", "under count < maxAutoTuneSamples", "the sample count can exceed the ring size (sortCache[:count] would panic)")
 		}
 	}
 }
@@ -1368,11 +1377,11 @@ func (p *Prog) isMaxLenAccumulator(fi *FuncInfo, bound ast.Expr) bool {
 		if t.IsConst() && t.Int == 0 {
 			continue
 		}
-		if t.Op != "len" {
+		x, okM := p.runningMax(fi, a.Node, tVar(v), a.Rhs)
+		if !okM {
 			return false
 		}
-		fs := p.FactsOf(fi).AtNode(a.Node)
-		if !fs.Holds(lt(tVar(v), t)) && !fs.Holds(lt(tVar(v), p.Term(a.Rhs))) {
+		if x = p.ExpandHelpers(x); x.Op != "len" {
 			return false
 		}
 		n++
